@@ -72,7 +72,7 @@ impl TimeScale {
         if self.repeat == Repeat::Infinite {
             f32::INFINITY
         } else {
-            self.delay + self.duration * (self.repeat.as_ordinal() + 1) as f32
+            self.delay + self.duration * (self.repeat.as_ordinal() as u64 + 1) as f32
         }
     }
 
@@ -110,7 +110,7 @@ impl TimeScale {
         let (cycle_time, is_repeating) = match self.repeat {
             Repeat::None if time > self.duration => return self.position_ended(),
             Repeat::None => (time, false),
-            Repeat::Times(times) if time > self.duration * (times + 1) as f32 => {
+            Repeat::Times(times) if time > self.duration * (times as u64 + 1) as f32 => {
                 return self.position_ended();
             }
             Repeat::Times(_) | Repeat::Infinite => {
